@@ -77,6 +77,10 @@ def scenarios(tier):
             for demux in (None, "name"):
                 S.append(dict(layout=layout, demux=demux, keys=FILTER_KEYS, final="discard_untrimmed", redirect=True, report="full",
                               extra=extra, cores=2))
+    # two cores with few filters, so that most reads are WRITTEN by both workers (written-length statistics are merged, too)
+    for layout in ("single", "paired"):
+        for keys, extra in (([], None), (["m"], dict(q="10,10")), (["m", "max_n"], dict(poly_a=True, times=2))):
+            S.append(dict(layout=layout, demux=None, keys=keys, final=None, redirect=bool(keys), report="full", extra=extra, cores=2))
     return S
 
 
